@@ -289,7 +289,7 @@ func TestZeroTails(t *testing.T) {
 	want := []string{"H\x02abH\x040", "H\x02abH\x04w0", "H\x02abH\x0400", "H\x02abH\x04wx0", "H\x02abH\x04000", "H\x02abH\x04wxy0", "H\x02abH\x04wx00", "H\x02abH\x040000",
 		"H\x02abH\x04wxyzH0H\x010"}
 	for _, w := range want {
-		if !got[strings.ReplaceAll(w, "H0H", "H\x00H")] {
+		if !got[w] { // (the length byte 0 of the empty record is shown as '0' too)
 			t.Errorf("missing zero-tail image %q", w)
 		}
 	}
